@@ -210,7 +210,7 @@ func genX1Dedup(g *G) {
 	idx := 0
 	for n := 0; n <= maxN; n++ {
 		x1c17Words(3, n, func(w []int) {
-			g.Case([]string{c17reset(w, idx%3, (idx/3)%3), "dedup"})
+			g.Each([]string{c17reset(w, idx%3, (idx/3)%3), "dedup"}) // exhaustive part: dealt to the generator shards
 			idx++
 		})
 	}
@@ -256,9 +256,9 @@ func genX1Misc(g *G) {
 				for i := range vs {
 					vs[i]++ // no zero values: Zero must change every cell
 				}
-				g.Case([]string{c17reset(vs, off, spare), "reverse", "reverse"})
-				g.Case([]string{c17reset(vs, off, spare), "zero"})
-				g.Case([]string{c17reset(vs, off, spare), "reverse", "zero", "reverse"})
+				g.Each([]string{c17reset(vs, off, spare), "reverse", "reverse"})
+				g.Each([]string{c17reset(vs, off, spare), "zero"})
+				g.Each([]string{c17reset(vs, off, spare), "reverse", "zero", "reverse"})
 			}
 		}
 	}
@@ -271,7 +271,7 @@ func genX1Misc(g *G) {
 			for lim := 0; lim <= n+1; lim++ {
 				ops = append(ops, fmt.Sprintf("select %d %d", mask, lim))
 			}
-			g.Case(ops)
+			g.Each(ops)
 		}
 	}
 	for c := 0; c < g.Scale(300, 6000); c++ {
@@ -409,7 +409,7 @@ func genX1Value(g *G) {
 					"at "+p, fmt.Sprintf("atdefault %s %d", p, o))
 			}
 			ops = append(ops, fmt.Sprintf("cond T %d %d", v, o), fmt.Sprintf("cond F %d %d", v, o))
-			g.Case(ops)
+			g.Each(ops)
 		}
 	}
 	rv := func() int { return g.Intn(2001) - 1000 }
